@@ -498,6 +498,12 @@ def _type_check_field_existence_condition(field, source_file_name, errors):
     )
 
 
+def _type_check_enum_value(enum_value, source_file_name, errors):
+    # A value may also be given as (a reference to) another enum value.
+    if ir_data_utils.reader(enum_value).value.type.which_type != "enumeration":
+        _type_check_integer(enum_value.value, source_file_name, errors, "Enum value")
+
+
 def _type_name_for_error_messages(expression_type):
     expression_type = ir_data_utils.reader(expression_type)
     if expression_type.which_type == "integer":
@@ -647,6 +653,12 @@ def check_types(ir):
         ir,
         [ir_data.Field],
         _type_check_field_existence_condition,
+        parameters={"errors": errors},
+    )
+    traverse_ir.fast_traverse_ir_top_down(
+        ir,
+        [ir_data.EnumValue],
+        _type_check_enum_value,
         parameters={"errors": errors},
     )
     traverse_ir.fast_traverse_ir_top_down(
